@@ -85,6 +85,16 @@ def canon_feature(f):
     return g
 
 
+def _stored_dialect(conn):
+    """the dialect a new handle reports: the first row of meta (compared before/after, never against the model)"""
+    import json
+    rows = conn.execute("SELECT dialect FROM meta ORDER BY rowid LIMIT 1").fetchall()
+    try:
+        return json.loads(rows[0][0]) if rows else None
+    except Exception:  # noqa
+        return "undecodable"
+
+
 def proj_db(conn, canon=False):
     """whole logical content, read with plain SQL"""
     import sqlite3
@@ -97,7 +107,8 @@ def proj_db(conn, canon=False):
             "ctr": sorted([enc(b), n] for b, n in conn.execute("SELECT base, n FROM autoincrements")),
             "dups": sorted([enc(a), enc(b)] for a, b in conn.execute("SELECT idspecid, newid FROM duplicates")),
             "dirs": [enc(d[0]) for d in conn.execute("SELECT directive FROM directives ORDER BY rowid")],
-            "nmeta": conn.execute("SELECT count(*) FROM meta").fetchone()[0]}
+            "nmeta": conn.execute("SELECT count(*) FROM meta").fetchone()[0],
+            "dialect": _stored_dialect(conn)}
 
 
 def proj_file(path, canon=False):
